@@ -288,7 +288,8 @@ PROPS["C10"] = {
              "offset table, are a multiple of 4, and an LPSTR's length field equals its encoded bytes + 1 -- for all "
              "scalar values (symbolic) and for 11 concrete string shapes covering every residue of UTF-8 vs encoded "
              "length mod 4 under US-ASCII; set_codepage keeps property 1 and the cached code page in step for all 26 "
-             "code pages (16-bit id stored signed). String contents are concrete shapes: honestly close to a table of "
+             "code pages (16-bit id stored signed) -- by Kani from the default state and by engine M from an arbitrary cached code "
+             "page (the latter found that UTF-8's id 65001 was not recognised when switching to it: fixed in /repo 79b811b). String contents are concrete shapes: honestly close to a table of "
              "runs decided by CBMC. Setter sequences, other code pages' encoders and save/reopen are outside.",
     "note": "Trusted: Kani/CBMC; the cfg-gated hook only forwards to the private functions. Outside: PropertySet::write's "
             "own loop over the BTreeMap (3 properties: > 10 min, measured), SummaryInfo setter sequences, template "
